@@ -466,3 +466,34 @@ Proof.
   split; vm_compute; reflexivity.
 Qed.
 Print Assumptions C11_fetch_error_swallowed_refuted.
+
+(* ---- (b) in total form: hypotheses on the INPUT only ----
+   CreateFragment + AddFullSampleToTrack never fail on the fragment's own track id, Fragment.Encode (optimisation on
+   or off) succeeds for a non-empty one-trun fragment, and the written fragment satisfies the round trip's guard,
+   provided 16 bytes of trun per sample + the samples' bytes + 200 stay below 2 GiB. *)
+From V.c11 Require Import C11TotalProofs.
+Theorem C11_write_segment_total : forall opt T (l : list fullsample) pos0,
+  l <> [] -> 16 * lenN l + lenN (flat_map fs_data l) + 200 < 2147483648 -> pos0 < 4611686018427387904 ->
+  exists fe, write_segment opt T l = Ok fe /\ seg_guard pos0 fe = true.
+Proof. exact write_segment_total. Qed.
+Print Assumptions C11_write_segment_total.
+
+(* For every progressive file whose tracks have consistent tables pointing into the file, every target duration:
+   if the tool computes a plan at all (segment_plan = Ok: a video track with stss, sync points found, no lookup
+   error) and every planned segment is smaller than 2 GiB (seg_small, a condition on the tables), then for EVERY track
+   the in-memory writer returns without error, and reading the written segments back in order (decode at any
+   position, GetFullSamples with the track's trex) gives exactly the track's expansion; no segment is empty. *)
+Theorem C11_segmenter_total : forall (f : pfile) (trs : list itrack) d ivss,
+  Forall (fun t => C09Spec.consistent (snd t) = true /\ data_ok f (snd t) = true) trs ->
+  segment_plan (map itrack_of trs) d = Ok ivss ->
+  Forall2 (fun t ivs => forall opt T pos0 (tx : C05Model.trex),
+             tx_track tx = T -> pos0 < 4611686018427387904 -> forallb (seg_small (snd t)) ivs = true ->
+             exists fes outs, seg_track opt f (snd t) T ivs = Ok fes /\
+                              read_all (read_back tx pos0 []) fes = Ok outs /\
+                              map Some (concat outs) = expansion f (snd t) /\
+                              Forall (fun o => o <> []) outs) trs ivss.
+Proof. exact plan_total. Qed.
+Print Assumptions C11_segmenter_total.
+
+Example C11_segmenter_total_example : forallb (seg_small ex_e2e_tb) [(1, 4); (5, 7)] = true.
+Proof. vm_compute. reflexivity. Qed.
